@@ -451,7 +451,7 @@ def rule_assumes(ctx, R):
                             ok, why = cy >= maxcap, "D1: x.0 < %d for x: TrimmedIndex (invariant x.0 < %d)" % (cy, maxcap)
                     elif (not pol) and cx is not None and is_len(y):
                         ok, why = cx >= maxcap, "D2: %s <= %d (invariant <= %d)" % (y[1][2], cx, maxcap)
-                    elif pol and is_len(x) and y[0] == "bin" and y[1] == "Add" and y[2] == x and cval(y[3]) == 1:
+                    elif pol and y[0] == "bin" and y[1] == "Add" and is_len(y[2]) and cval(y[3]) == 1 and (x == y[2] or _untrim(x) == y[2]):
                         ok, why = True, "D3: len < len + 1"
                     elif (not pol) and is_len(x) and contains(y, lambda t: t[0] == "call" and ("resolve_entity" in t[1] or "resolve_direct" in t[1])):
                         ok, why = True, "D4: resolved dense index <= len"
@@ -463,6 +463,14 @@ def rule_assumes(ctx, R):
                             "%s assumes `%s` (unreachable_unchecked() in release, panic in debug when false): %s. A legal value would make release builds undefined and debug builds panic." % (path, sig[:160], why), where_of(fn, c[3]), fn=fn.key)
     for rid in ("C03-R9", "C19-R7"):
         R.check(n >= 20, rid, "assumes|count", "%d assumptions judged in their own functions" % n, "only %d assumptions found (expected >= 20)" % n, None)
+
+
+def _untrim(v):
+    from .r_storage import untrim, strip_epochs
+    try:
+        return untrim(v)
+    except Exception:
+        return v
 
 
 def re_fold(s):
